@@ -51,6 +51,11 @@ struct Scenario {
 #[derive(Clone, Debug, Serialize, Deserialize)]
 enum Refusal {
 	Confirmed,
+	/// mined, but the wallet has not refreshed since (with / without a change output; the
+	/// no-change send is confirmed by the kernel lookup only)
+	MinedNotRefreshed { change: bool },
+	/// the recipient cancels a payment that is mined but not yet refreshed
+	MinedNotRefreshedReceived,
 	AlreadyCancelled,
 	Coinbase,
 	UnknownId,
@@ -486,6 +491,27 @@ fn run_refusal(dir: &str, base: &Snapshot, r: &Refusal) -> Result<String, (Strin
 			slots.push(s1.id);
 			(None, Some(s1.id))
 		}
+		Refusal::MinedNotRefreshed { change } => {
+			let amount = if *change { 10 * G } else { exact_amount(1) };
+			let s1 = a.init_send(default_args(amount)).unwrap();
+			a.lock(&s1).unwrap();
+			let s2 = b.receive(&s1, None).unwrap();
+			let s3 = a.finalize(&s2).unwrap();
+			a.post(s3.tx_or_err().unwrap()).unwrap();
+			w.mine("M").unwrap();
+			slots.push(s1.id);
+			(None, Some(s1.id))
+		}
+		Refusal::MinedNotRefreshedReceived => {
+			let s1 = b.init_send(default_args(7 * G)).unwrap();
+			b.lock(&s1).unwrap();
+			let s2 = a.receive(&s1, None).unwrap();
+			let s3 = b.finalize(&s2).unwrap();
+			b.post(s3.tx_or_err().unwrap()).unwrap();
+			w.mine("M").unwrap();
+			slots.push(s1.id);
+			(None, Some(s1.id))
+		}
 		Refusal::AlreadyCancelled => {
 			let s1 = a.init_send(default_args(10 * G)).unwrap();
 			a.lock(&s1).unwrap();
@@ -511,6 +537,18 @@ fn run_refusal(dir: &str, base: &Snapshot, r: &Refusal) -> Result<String, (Strin
 	let s1 = snap(a, &slots);
 	let res = catch(|| a.cancel(tx_id, slate_id));
 	let s2 = snap(a, &slots);
+	// a transaction that is mined but not yet seen: the refused cancel may bring the wallet up to
+	// date (it refreshes first), nothing more — the state must equal what a refresh alone leaves
+	let not_refreshed = match r {
+		Refusal::MinedNotRefreshed { .. } | Refusal::MinedNotRefreshedReceived => true,
+		_ => false,
+	};
+	let s1 = if not_refreshed {
+		let _ = a.refresh();
+		snap(a, &slots)
+	} else {
+		s1
+	};
 	w.close();
 	match res {
 		Err(p) => Err((format!("C05/panic/refusal/{}", rname), format!("cancel panicked: {}", p))),
@@ -606,7 +644,7 @@ pub fn run(_args: &[String]) -> i32 {
 		let _ = std::fs::remove_dir_all(&dir);
 		r
 	});
-	let refusals = vec![Refusal::Confirmed, Refusal::AlreadyCancelled, Refusal::Coinbase, Refusal::UnknownId, Refusal::OtherAccountId];
+	let refusals = vec![Refusal::Confirmed, Refusal::MinedNotRefreshed { change: true }, Refusal::MinedNotRefreshed { change: false }, Refusal::MinedNotRefreshedReceived, Refusal::AlreadyCancelled, Refusal::Coinbase, Refusal::UnknownId, Refusal::OtherAccountId];
 	let rres = par_map(&refusals, workers(), |i, r| {
 		let dir = format!("{}/c05-r{}", root, i);
 		let x = run_refusal(&dir, &base, r);
